@@ -1,5 +1,6 @@
 //! E2 — deviation-bounded / input-exhaustive explorer for the pure crates
 //! (compio-buf, compio-io). One binary, one sub-command per property.
+mod c04;
 mod c10;
 mod c10v;
 mod c11;
@@ -11,6 +12,7 @@ fn main() {
     let args = vcore::parse_args();
     vcore::quiet_panics();
     match args.property.as_str() {
+        "C04" => c04::run(args),
         "C10" => c10::run(args),
         "C11" => c11::run(args),
         "C12" => c12::run(args),
